@@ -116,18 +116,18 @@ type SeqSpec struct {
 
 // Reader fault plan, keyed by stream position relative to the reader's data.
 type RPlan struct {
-	Cuts        []int    `json:"cuts,omitempty"`      // no read crosses these offsets
-	ByteFrom    int      `json:"bytefrom,omitempty"`  // [ByteFrom,ByteTo): one byte per call
-	ByteTo      int      `json:"byteto,omitempty"`    //
-	EOFWithData bool     `json:"eofdata,omitempty"`   // last chunk returned together with io.EOF
-	MaxChunk    int      `json:"maxchunk,omitempty"`  // 0 = unlimited
-	Events      []REvent `json:"events,omitempty"`    // faults
-	EOFEarly    int      `json:"eofearly,omitempty"`  // >0: reader ends at this offset (truncated source) — stored +1
+	Cuts        []int    `json:"cuts,omitempty"`     // no read crosses these offsets
+	ByteFrom    int      `json:"bytefrom,omitempty"` // [ByteFrom,ByteTo): one byte per call
+	ByteTo      int      `json:"byteto,omitempty"`   //
+	EOFWithData bool     `json:"eofdata,omitempty"`  // last chunk returned together with io.EOF
+	MaxChunk    int      `json:"maxchunk,omitempty"` // 0 = unlimited
+	Events      []REvent `json:"events,omitempty"`   // faults
+	EOFEarly    int      `json:"eofearly,omitempty"` // >0: reader ends at this offset (truncated source) — stored +1
 }
 
 type REvent struct {
 	At   int    `json:"at"`
-	Kind string `json:"kind"`          // zero | err | sticky
+	Kind string `json:"kind"`           // zero | err | sticky
 	Keep int    `json:"keep,omitempty"` // err: bytes returned together with the error
 	Rep  int    `json:"rep,omitempty"`  // zero/sticky: repetitions; -1 = forever (dead reader)
 	ID   int    `json:"id"`
